@@ -41,3 +41,4 @@ package asn1
 //@          decreases i + 1
 //@   ensures found: key != nil ==> 0 <= idx && idx < len(r.Keys) && key == &r.Keys[idx] && r.Keys[idx].Seqnum == seqnum
 //@   ensures not-found: key == nil ==> idx == -1 && forall(i, 0, len(r.Keys), r.Keys[i].Seqnum != seqnum)
+//@   modifies nothing
